@@ -88,15 +88,15 @@ func c15Words(maxLen int) []string {
 }
 
 type c15Obs struct {
-	Ops          []opObs
-	XDone        int64 // logical time at which cancel() returned / the deadline had passed
-	HandlerDone  bool
+	Ops           []opObs
+	XDone         int64 // logical time at which cancel() returned / the deadline had passed
+	HandlerDone   bool
 	HandlerSawCtx bool
-	HandlerErr   string
-	Leaked       []string
-	HandlerStuck bool
-	Stacks       string
-	TimeoutHdr   string
+	HandlerErr    string
+	Leaked        []string
+	HandlerStuck  bool
+	Stacks        string
+	TimeoutHdr    string
 }
 
 const c15Deadline = 3 * time.Second
